@@ -12,6 +12,7 @@ import (
 	"regexp"
 	"strings"
 	"testing"
+	"time"
 	"unicode/utf8"
 )
 
@@ -112,12 +113,21 @@ func (s plState) checkObs(p *PeekingLexer, what string, pr *probeResult) {
 }
 
 func safely(pr *probeResult, desc string, f func()) {
-	defer func() {
-		if r := recover(); r != nil {
-			pr.fail("%s: panic: %v", desc, r)
-		}
+	done := make(chan struct{})
+	go func() {
+		defer close(done)
+		defer func() {
+			if r := recover(); r != nil {
+				pr.fail("%s: panic: %v", desc, r)
+			}
+		}()
+		f()
 	}()
-	f()
+	select {
+	case <-done:
+	case <-time.After(3 * time.Second):
+		pr.fail("%s: did not terminate within 3s", desc)
+	}
 }
 
 func TestVerifProbe_PeekingLexer(t *testing.T) {
@@ -383,8 +393,11 @@ func TestVerifProbe_StatefulNext(t *testing.T) {
 		"backref": {"Root": {{"Open", `<(\w+)>`, Push("Body")}, {"ws", `\s+`, nil}}, "Body": {{"Close", `</\1>`, Pop()}, {"Text", `[^<]+`, nil}}},
 		"empty":   {"Root": {{"Maybe", `a*`, nil}, {"B", `b`, nil}}},
 		"rootret": {"Root": {{"A", `a`, nil}, Return()}},
+		"emptyws": {"Root": {{"Ident", `[a-z]+`, nil}, {"ws", `\s*`, nil}, {"Plus", `\+`, nil}}},
+		"emptypop": {"Root": {{"Open", `\(`, Push("In")}, {"Bang", `!`, nil}},
+			"In": {{"Close", `\)?`, Pop()}, {"Word", `[a-z]+`, nil}}},
 	}
-	inputs := []string{"", "a", "ab c", "(a) b", "((a))", ")a", "a)", `"x$y"`, `"$`, "bc", "abc", "b", "xb", "<t>x</t>", "<t>x</u>", "a\nb\n\nc", "é a", "1 2", "ab", "$"}
+	inputs := []string{"", "a", "ab c", "(a) b", "((a))", ")a", "a)", `"x$y"`, `"$`, "bc", "abc", "b", "xb", "<t>x</t>", "<t>x</u>", "a\nb\n\nc", "é a", "1 2", "ab", "$", "a+b", "(a!", "(a)!"}
 	for name, rules := range defs {
 		def, err := New(rules)
 		if err != nil {
